@@ -154,6 +154,18 @@ XMC_TEST(self_mutex_ok, "std::mutex protects a plain counter") {
   join_all();
   if (s->c != 2) fail("ORACLE", "c=%d", s->c);
 }
+// spin detection must not mistake repeated calls of an outlined accessor for a busy-wait loop: at c=0 the
+// three reads below are never separated by the other thread (plant=1: reads inside a real loop are)
+[[gnu::noinline]] static int self_peek(std::atomic<int>* a) { return a->load(std::memory_order_relaxed); }
+XMC_TEST(self_accessor_calls, "three calls of an outlined accessor are not a spin loop (c=0: no switch between them)") {
+  auto* a = new std::atomic<int>(0);
+  spawn([a] {
+    int r1 = self_peek(a), r2 = self_peek(a), r3 = self_peek(a);
+    if (r1 != r3 || r1 != r2) fail("ORACLE", "reads separated without a preemption: %d %d %d", r1, r2, r3);
+  });
+  spawn([a] { a->store(1, std::memory_order_relaxed); });
+  join_all();
+}
 XMC_TEST(self_choose, "DATA choices are enumerated: 3x3 grid, violation only at (2,1)") {
   int a = choose(3), b = choose(3);
   if (a == 2 && b == 1 && opt("plant", 0)) fail("ORACLE", "found planted (2,1)");
